@@ -20,4 +20,6 @@ pub mod c01;
 #[cfg(kani)]
 pub mod c06;
 #[cfg(kani)]
+pub mod c08;
+#[cfg(kani)]
 mod setup;
